@@ -379,7 +379,10 @@ fn run_case_inner(scratch: &Path, c: &Case, drop_uid: bool, classes: &std::cell:
             let md = std::fs::symlink_metadata(&lay).map_err(|e| Fail::new("C11:layer-missing-after-ok", e.to_string()))?;
             ensure!(md.file_type().is_dir(), "C11:layer-not-a-real-directory", "after Ok the layer path is {:?}", md.file_type());
             let now = fsutil::snapshot(&lay);
-            let left: Vec<String> = now.keys().filter(|k| !k.is_empty()).map(|k| fsutil::show_path(k)).collect();
+            // "all of the layer's own entries are gone": an OLD entry survives if a file or link still exists at its path
+            // (directories alone do not count: a fresh layer may come with empty directories of its own, and a surviving
+            // old directory that still holds anything old is reported through that content)
+            let left: Vec<String> = now.iter().filter(|(k, e)| !k.is_empty() && old_entries.contains(k) && !matches!(e.kind, Kind::Dir)).map(|(k, _)| fsutil::show_path(k)).collect();
             ensure!(left.is_empty(), "C11:old-entries-survive", "after Ok the layer still contains {left:?} (had {} entries)", old_entries.len());
             if c.with_sbom && root.join("layers/lay.sbom.syft.json").exists() {
                 return Err(Fail::new("C11:sbom-survives", "lay.sbom.syft.json survived the deletion"));
@@ -395,12 +398,11 @@ fn run_case_inner(scratch: &Path, c: &Case, drop_uid: bool, classes: &std::cell:
         Ok(())
     })();
     let _ = fsutil::force_remove(&root);
-    let _ = Kind::Dir;
     r
 }
 
 pub fn run(ctx: &Ctx) {
-    ctx.set_rule("generated layer trees (depth <= 4, modes dirs {000,111,444,555,666,755} files {000,444,644}; symlinks to files/dirs inside the layer, in a sibling layer, in a canary tree outside <layers> (relative and absolute, also to a read-only dir), to <layers> itself and to '/', dangling, self-loops, 2-cycles; HARD links to read-only files in the canary tree and in a sibling layer) with the layer path being a real directory or a symlink to a canary dir / sibling layer / empty outside dir / canary file / nowhere; around it a canary tree with odd modes, three sibling layers (two sharing the name prefix) with TOML, SBOM and env, lay.toml.bak, store.toml. Three deletion routes: uncached_layer, cached_layer + DeleteLayer, handle_layer + Recreate; each case in a fresh worker process, once after dropping to uid/gid 65534 (tree chowned to it, so permission bits bind) and once as root. Oracle: (a) always: lstat snapshot (content, mode, link target) of everything outside <layers>/lay, lay.toml, lay.sbom.* identical before/after; (b) on Ok: the layer path is a real empty directory, no old entry exists, SBOM gone; a real-directory layer owned by the caller must be deleted successfully. Non-trivial: the layer path is a symlink, or the tree has a symlink whose target lies outside the layer, or a nested directory lacks w or x; distinct = hash of the case.");
+    ctx.set_rule("generated layer trees (depth <= 4, modes dirs {000,111,444,555,666,755} files {000,444,644}; symlinks to files/dirs inside the layer, in a sibling layer, in a canary tree outside <layers> (relative and absolute, also to a read-only dir), to <layers> itself and to '/', dangling, self-loops, 2-cycles; HARD links to read-only files in the canary tree and in a sibling layer) with the layer path being a real directory or a symlink to a canary dir / sibling layer / empty outside dir / canary file / nowhere; around it a canary tree with odd modes, three sibling layers (two sharing the name prefix) with TOML, SBOM and env, lay.toml.bak, store.toml. Three deletion routes: uncached_layer, cached_layer + DeleteLayer, handle_layer + Recreate; each case in a fresh worker process, once after dropping to uid/gid 65534 (tree chowned to it, so permission bits bind) and once as root. Oracle: (a) always: lstat snapshot (content, mode, link target) of everything outside <layers>/lay, lay.toml, lay.sbom.* identical before/after; (b) on Ok: the layer path is a real directory in which no old entry exists any more (empty directories excepted), SBOM gone; a real-directory layer owned by the caller must be deleted successfully. Non-trivial: the layer path is a symlink, or the tree has a symlink whose target lies outside the layer, or a nested directory lacks w or x; distinct = hash of the case.");
     ctx.assume("a regular file at the layer path is not generated; unprivileged pass needs setuid(65534) to succeed");
     let scratch = Scratch::new("c11");
     for (_p, v) in ctx.regress_files() {
